@@ -235,3 +235,86 @@ Definition allowed (e : env) (prefix meth path : list N) : Prop :=
   under_dir s_well_known path \/
   (e AHealth = true /\ path = prefix ++ s_health) \/
   (pkce_on e = true /\ under_dir (prefix ++ s_oauth) path).
+
+(* ---- the authenticator _AuthMiddleware is given ----
+   make_wsgi_app hands _AuthMiddleware the operator callback itself, or -- while the PKCE browser flow is active --
+   chain_authenticate(callback, make_cookie_authenticate(callback)):
+     * chain_authenticate: members in order; the first that returns wins; ValueError moves on to the next member;
+       any other exception (PermissionError) propagates at once;
+     * cookie member: no / empty `_vgi_auth` cookie -> AuthFailure (a ValueError); otherwise the callback is asked about
+       the same request with Authorization replaced by "Bearer <cookie>".
+   The composed verdict is a pure function of what the callback answers NOW about THIS request. *)
+Inductive verdict := VAccept | VRejectValue | VRejectPerm.
+(* the operator callback: the Authorization value it sees, and everything else about the request / the moment *)
+Definition callback (R : Type) := option (list N) -> R -> verdict.
+Record creds := { c_header : option (list N); c_cookie : option (list N) }.
+Definition s_bearer : list N := [66; 101; 97; 114; 101; 114; 32].   (* "Bearer " *)
+
+Definition is_accept (v : verdict) : bool := match v with VAccept => true | _ => false end.
+
+(* members of the chain handed to _AuthMiddleware *)
+Inductive member :=
+| MCallback                    (* the operator callback asked about the request as it is *)
+| MCookie (bearer : list N).   (* make_cookie_authenticate(callback): asks with Authorization := bearer ++ cookie *)
+
+(* the Authorization value of a member's question; None = the member raises ValueError without asking *)
+Definition member_presentation (m : member) (c : creds) : option (option (list N)) :=
+  match m with
+  | MCallback => Some (c_header c)
+  | MCookie b => match c_cookie c with
+                 | Some (x :: t) => Some (Some (b ++ x :: t))
+                 | _ => None
+                 end
+  end.
+
+(* chain_authenticate: the callback invocations made for one request, in order, with their verdicts *)
+Fixpoint chain_calls {R : Type} (cb : callback R) (c : creds) (rest : R) (ms : list member)
+  : list (option (list N) * verdict) :=
+  match ms with
+  | [] => []
+  | m :: r =>
+      match member_presentation m c with
+      | None => chain_calls cb c rest r
+      | Some a => let v := cb a rest in
+                  (a, v) :: match v with VRejectValue => chain_calls cb c rest r | _ => [] end
+      end
+  end.
+
+Definition authenticator_members (pkce : bool) : list member :=
+  if pkce then [MCallback; MCookie s_bearer] else [MCallback].
+
+Definition auth_calls {R : Type} (pkce : bool) (cb : callback R) (c : creds) (rest : R) : list (option (list N) * verdict) :=
+  chain_calls cb c rest (authenticator_members pkce).
+
+Definition composed_accepts {R : Type} (pkce : bool) (cb : callback R) (c : creds) (rest : R) : bool :=
+  existsb (fun p => is_accept (snd p)) (auth_calls pkce cb c rest).
+
+(* one request against the app: the operator callback as it answers at that moment, the credentials, the rest *)
+Definition handle_cb {R : Type} (e : env) (stops : mw -> bool) (cb : callback R) (c : creds) (rest : R)
+           (prefix meth path : list N) : list event :=
+  handle e stops (composed_accepts (pkce_on e) cb c rest) prefix meth path.
+
+(* ---- correspondence entry point for request histories ----
+   The harness callback: accepts iff it sees "Bearer GOOD", the token is live now and (if needed) the proxy header is there;
+   rejects with PermissionError when perm, else ValueError.
+   input : (flags, prefix, method, path, (live, need, perm, edge), (header kind, cookie kind)), kinds: 0 none 1 good 2 bad 3 empty
+   output: (number of callback invocations, refused with 401, reached routing) *)
+Definition s_good : list N := [99; 50; 48; 45; 103; 111; 111; 100; 45; 116; 111; 107; 101; 110].   (* "c20-good-token" *)
+Definition s_bad : list N := [99; 50; 48; 45; 98; 97; 100; 45; 116; 111; 107; 101; 110].          (* "c20-bad-token" *)
+Definition tok_of (k : N) : option (list N) :=
+  match k with 1 => Some s_good | 2 => Some s_bad | 3 => Some [] | _ => None end.
+Definition harness_cb (live need perm : bool) : callback bool :=
+  fun a edge =>
+    if match a with Some x => str_eqb x (s_bearer ++ s_good) | None => false end && live && (negb need || edge)
+    then VAccept else if perm then VRejectPerm else VRejectValue.
+
+Definition run_step (x : (bool * bool * bool * bool * bool) * list N * list N * list N * (bool * bool * bool * bool) * (N * N))
+  : N * bool * bool :=
+  let '(c, prefix, meth, path, st, (hk, ck)) := x in
+  let '(live, need, perm, edge) := st in
+  let e := env_of c in
+  let cr := {| c_header := match tok_of hk with Some t => Some (s_bearer ++ t) | None => None end; c_cookie := tok_of ck |} in
+  let cb := harness_cb live need perm in
+  let tr := handle_cb e (fun _ => false) cb cr edge prefix meth path in
+  ((if existsb is_auth_call tr then N.of_nat (length (auth_calls (pkce_on e) cb cr edge)) else 0),
+   existsb is_reject tr, existsb is_dispatch tr).
